@@ -166,10 +166,19 @@ def run(replay=None):
                 if int(f[key]):
                     ck.violation(key, what, {"program": p.text(), "command": p.lines[cmd - 1], "detail": out[0]})
             if float(f["maxfield"]) > 2.0:
-                ck.violation("offsurface", f"a contour vertex is {f['maxfield']} feature sizes from the zero level set",
+                ck.violation("offsurface:dc", f"a contour vertex is {f['maxfield']} feature sizes from the zero level set",
                              {"program": p.text(), "command": p.lines[cmd - 1], "detail": out[0]})
             if len(samples) < 3:
                 samples.append({"command": p.lines[cmd - 1], "answer": out[0]})
+    # the recorded finding (2D analogue of C04's unbounded dual-contouring vertices)
+    corpus = os.path.join(common.VERIF, "check", "corpus", "c10_contour_vertex_offsurface.txt")
+    rc, cout, _ = common.run_prog(exe_h, open(corpus).read(), timeout=300)
+    for l in cout.splitlines():
+        if " CA " in l:
+            mf = float(l.split("maxfield=")[1].split()[0])
+            if mf > 2.0:
+                ck.violation("offsurface:dc", f"a contour vertex is {mf} feature sizes from the zero level set on the recorded input",
+                             {"program": open(corpus).read(), "detail": l})
     # ---- uniform-grid emission: the implementation's contours against Render/DCGrid2.v + Contours.v ----
     ok_g, log_g = common.build_driver(**common.DRIVERS["gdriver"])
     gprogs = []
